@@ -41,6 +41,9 @@ class Validator():
 
     def validate(self, json):
         problems = []
+        if not isinstance(json, dict):
+            problems.append(f"{self.root} must be an Object")
+            return problems
         validator = NodeValidator(self.parser)
         validator.validate_node(json, self.parser.root, [self.parser.root], problems)
         return problems
@@ -127,7 +130,7 @@ class NodeValidator():
         #print()
         #print(f"validate_node {node} {path} {roles} {problems}")
 
-        if not node or not isinstance(node, dict):
+        if not isinstance(node, dict):
             return
 
         # May have more roles based on field presence/value etc
